@@ -33,17 +33,18 @@ const (
 	holdTimeout = 2 * time.Second
 )
 
-func newServer(c *Case) *script.Server {
+func newServer(c *Case) (*script.Server, *connGate) {
 	s := script.New()
+	cg := &connGate{}
 	srv := &go9p.Srv{Msize: 8192, Dotu: true, Maxpend: c.Maxpend, Upool: script.Users{}, Id: "c11", Log: sharedLog}
-	var ops interface{} = script.OpsPlain{S: s}
+	var ops interface{} = opsPlainG{script.OpsPlain{S: s}, cg}
 	if c.Auth {
-		ops = script.OpsAuth{S: s}
+		ops = opsAuthG{script.OpsAuth{S: s}, cg}
 	}
 	if !srv.Start(ops) {
 		panic("c11: Srv.Start refused the ops value")
 	}
-	return &script.Server{Srv: srv, S: s}
+	return &script.Server{Srv: srv, S: s}, cg
 }
 
 // connCount reads len(srv.conns) (unexported; read-only, under the server lock).
@@ -355,9 +356,10 @@ func runScript(c *Case, res *result) (err error) {
 	defer uninstall()
 
 	g0 := libGors()
-	sv := newServer(c)
+	sv, cg := newServer(c)
 	S := sv.S
 	defer S.ReleaseAll()
+	defer cg.release()
 
 	by, err := openBystander(sv.Dial, !c.Dotu, "alice")
 	if err != nil {
@@ -652,7 +654,10 @@ func runScript(c *Case, res *result) (err error) {
 
 	// ---- schedule: where the close is relative to the first released request
 	sched := c.Sched
-	if len(parked) == 0 || (sched == "slowdestroy" && destroyKey == "") {
+	switch {
+	case sched == "slowclosed":
+	case sched == "slowdestroy" && destroyKey != "":
+	case sched == "slowdestroy" || len(parked) == 0:
 		sched = "closefirst"
 	}
 	switch sched {
@@ -660,8 +665,11 @@ func runScript(c *Case, res *result) (err error) {
 		k.addHold(connWho(vid), "close.enter", parked[0].who, "respond.queued", holdTimeout)
 	case "mid":
 		k.addHold(connWho(vid), "close.stopped", parked[0].who, "respond.posted", holdTimeout)
+	case "slowclosed":
+		// the ConnClosed callback of the victim dwells until the harness releases it
+		cg.arm(vid)
 	}
-	if len(parked) > 0 {
+	if len(parked) > 0 || sched == "slowdestroy" || sched == "slowclosed" {
 		res.labels = append(res.labels, "schedule="+sched)
 	}
 
@@ -679,7 +687,9 @@ func runScript(c *Case, res *result) (err error) {
 		S.Release(lf.key)
 		k.wait(lf.who, "respond.posted", 1, quiesce)
 	}
-	if sched == "slowdestroy" {
+	dwelling := ""
+	switch sched {
+	case "slowdestroy":
 		// (schedule only) until Conn.close is inside the dwelling FidDestroy
 		inside := waitFor(holdTimeout, func() bool {
 			for _, e := range S.Log() {
@@ -689,14 +699,33 @@ func runScript(c *Case, res *result) (err error) {
 			}
 			return false
 		})
-		if !inside {
+		if inside {
+			dwelling = "a FidDestroy of the victim's disconnect"
+		} else {
 			res.labels = append(res.labels, "schedule slowdestroy not reached")
 		}
+	case "slowclosed":
+		if cg.isInside(holdTimeout) {
+			dwelling = "the ConnClosed callback of the victim's disconnect"
+		} else {
+			res.labels = append(res.labels, "schedule slowclosed not reached")
+		}
+	}
+	// ---- no other connection is disturbed while the callback dwells: the
+	// bystander's fid-carrying requests are answered and a new connection is
+	// accepted and served BEFORE the callback is released
+	var nw *newcomer
+	if dwelling != "" {
+		var err error
+		if nw, err = dwellProbe(by, sv.Dial, c.Dotu, dwelling, false); err != nil {
+			return err
+		}
+		res.labels = append(res.labels, "bystander and a new connection served while "+dwelling+" dwells")
 	}
 	switch sched {
 	case "closefirst":
-	case "slowdestroy":
-		// every parked request answers while close sits in the clean-up
+	case "slowdestroy", "slowclosed":
+		// every parked request answers while close sits in the callback
 		for _, lf := range parked {
 			release(lf)
 		}
@@ -707,6 +736,12 @@ func runScript(c *Case, res *result) (err error) {
 	}
 	if destroyKey != "" {
 		S.Release(destroyKey)
+	}
+	cg.release()
+	if nw != nil {
+		if err := nw.leave(k); err != nil {
+			return err
+		}
 	}
 	if closeSettled(k, vid, closeWait) {
 		res.labels = append(res.labels, "close finished before the (remaining) requests were released")
@@ -826,6 +861,11 @@ func runScript(c *Case, res *result) (err error) {
 	if n := t.closed[by.id]; n != 0 {
 		return fmt.Errorf("bystander disturbed: ConnClosed reported for it %d times", n)
 	}
+	if nw != nil {
+		if n := t.closed[nw.id]; n != 1 {
+			return fmt.Errorf("ConnClosed was reported %d times for the connection dialled while the callback dwelt (it has disconnected)", n)
+		}
+	}
 	touched := map[int]bool{}
 	risky := false
 	for _, lf := range live {
@@ -858,6 +898,10 @@ func runScript(c *Case, res *result) (err error) {
 				badTouched = append(badTouched, s+" [in use by a request executing at the cut]")
 			} else {
 				bad = append(bad, s)
+			}
+		case nw != nil && conn == nw.id:
+			if n != 1 {
+				bad = append(bad, fmt.Sprintf("the connection dialled while the callback dwelt has disconnected: FidDestroy called %d times for its fid incarnation %d (want exactly once)", n, x))
 			}
 		case conn != vid && n != 0:
 			bad = append(bad, fmt.Sprintf("bystander disturbed: FidDestroy called %d times for its fid incarnation %d", n, x))
